@@ -31,3 +31,7 @@ CHECK = dict(
     level_note='Trusted: engine/vsched.c (clock algebra, shadow memory), gcc -fsanitize=thread instrumentation reporting every plain access.',
     design_ref='DESIGN.md sections 2.2 and 4 (C07)',
 )
+
+# build variants (bin/checks.py): only -DNDEBUG (side effects inside assert) - the schedule exploration is too expensive to repeat on every build
+CHECK['variants'] = ['c07rb', 'c07mq', 'c07fb']
+CHECK['variant_tiers'] = {'gcc -Os': (), 'gcc -O0': (), 'clang -O2': (), 'gcc -O2 -DNDEBUG': ('quick',)}
